@@ -17,7 +17,7 @@
 From Coq Require Import List Arith Bool ZArith.
 From LV Require Import Common.Cases Align.DP Msa.Profile Msa.Merge Msa.Refine Msa.MsaSpec Msa.MsaExec
   Msa.ProfileProofs Msa.MergeProofs Msa.UpdateProofs Msa.RefineProofs Msa.MsaExecProofs Msa.Examples
-  Msa.Alignments Msa.AlignmentsProofs.
+  Msa.Alignments Msa.AlignmentsProofs Msa.Totality.
 Import ListNotations.
 Local Open Scope nat_scope.
 
@@ -76,6 +76,18 @@ Theorem C04_align_inv :
     align PA cf tree = Some st -> state_ok cf st.
 Proof. exact align_inv. Qed.
 Print Assumptions C04_align_inv.
+
+(* ... and they do return on every valid input: if the aligner always answers (and validly),
+   no input sequence is empty and the guide tree is a valid merge order, then no exception
+   (None) of the model is reachable and the result satisfies the invariant *)
+Theorem C04_align_total :
+  forall (PA : oracle num) (cf : config) (tree : list (nat * nat)),
+    oracle_valid PA -> oracle_total PA -> config_ok cf ->
+    Forall (fun t => t <> []) (cf_tokens cf) ->
+    valid_merge_order (height_of cf) tree ->
+    exists st, align PA cf tree = Some st /\ state_ok cf st.
+Proof. exact align_total. Qed.
+Print Assumptions C04_align_total.
 
 (* iter_inv: _split / _reduce_gap_sites / re-align / _join, for ANY index list, any check
    mode and any score function *)
@@ -150,6 +162,9 @@ Print Assumptions C04_alignments_okb_spec.
 (* non-vacuity: an oracle that meets the contract for every input, and an object *)
 Example ex_oracle : oracle_valid (@block_pa num).
 Proof. exact block_pa_valid. Qed.
+
+Example ex_oracle_total : oracle_total (@block_pa num).
+Proof. intros pA pB _ _. eexists. eexists. reflexivity. Qed.
 
 Example ex_config : config_ok ex_cf.
 Proof. apply config_okb_spec. vm_compute. reflexivity. Qed.
